@@ -1584,20 +1584,20 @@ def national_summary_dict_size_replay(correlated=False, hard=True):
     rng = np.random.default_rng(3)
     allnames = ["a", "b", "c", "d", "e"]
     for n in (1, 3):
-        for size in (n - 1, n, n + 1, n + 2):
+        for size in (n - 1, n, n + 1, n + 2, None):  # (None: no dictionary at all -- every contest weighs one, never rejected)
             m = BootstrapElectionModel({"features": ["baseline_normalized_margin"], "B": B, "agg_model_hard_threshold": hard, "national_summary_correlation": correlated})
             m.aggregate_pred_margin = np.array([[0.1 * (i + 1)] for i in range(n)])
             noise = rng.normal(0, 0.01, size=(n, B))
             m.divided_error_B_1, m.divided_error_B_2 = noise, noise * 0.5
             m.called_contests = np.full((n, 1), -1)
             m.stop_model_call = np.full((n, 1), False)
-            d = {k: 5 + i for i, k in enumerate(allnames[:size])}
+            d = None if size is None else {k: 5 + i for i, k in enumerate(allnames[:size])}
             try:
                 m.get_national_summary_estimates(d, 100, 0.9)
                 raised = None
             except Exception as e:  # noqa
                 raised = type(e).__name__
-            want = None if size == n else "BootstrapElectionModelException"
+            want = None if size in (n, None) else "BootstrapElectionModelException"
             if raised != want:
                 out["failures"].append({"contests": n, "dictionary_size": size, "raised": raised, "expected": want})
     out["failures"] = out["failures"][:4]
